@@ -1,0 +1,64 @@
+//go:build verif
+// +build verif
+
+package rtree
+
+import "github.com/ctessum/geom"
+
+// VerifEntry is a read-only view of one entry of a node.
+type VerifEntry struct {
+	BB       geom.Bounds // the box stored in the entry
+	HasBB    bool
+	HasChild bool
+	Obj      geom.Geom // nil for non-leaf entries
+	// ChildParentOK reports whether the child's parent pointer is this node.
+	ChildParentOK bool
+}
+
+// VerifNode is a read-only view of one node. Nodes are numbered in pre-order;
+// Parent/ParentEntry locate the entry that points to this node (-1 for the root).
+type VerifNode struct {
+	ID, Parent, ParentEntry int
+	Depth                   int // 1 for the root
+	Level                   int // the node's own level field
+	Leaf                    bool
+	Entries                 []VerifEntry
+}
+
+// VerifWalk calls f for every node reachable from the root, pre-order,
+// without modifying anything. Recursion stops at depth 64 so that a corrupted
+// (cyclic) structure still terminates.
+func (tree *Rtree) VerifWalk(f func(VerifNode)) {
+	next := 0
+	var walk func(n *node, depth, parent, parentEntry int)
+	walk = func(n *node, depth, parent, parentEntry int) {
+		if n == nil || depth > 64 {
+			return
+		}
+		id := next
+		next++
+		vn := VerifNode{ID: id, Parent: parent, ParentEntry: parentEntry,
+			Depth: depth, Level: n.level, Leaf: n.leaf}
+		for _, e := range n.entries {
+			ve := VerifEntry{HasChild: e.child != nil, Obj: e.obj}
+			if e.bb != nil {
+				ve.BB = *e.bb
+				ve.HasBB = true
+			}
+			if e.child != nil {
+				ve.ChildParentOK = e.child.parent == n
+			}
+			vn.Entries = append(vn.Entries, ve)
+		}
+		f(vn)
+		for i, e := range n.entries {
+			if e.child != nil {
+				walk(e.child, depth+1, id, i)
+			}
+		}
+	}
+	walk(tree.root, 1, -1, -1)
+}
+
+// VerifRootParentNil reports whether the root's parent pointer is nil.
+func (tree *Rtree) VerifRootParentNil() bool { return tree.root.parent == nil }
